@@ -3,6 +3,7 @@ C18 — Rate limiter and throttle handler bound the send rate without starving i
 (decision objects; the gate in the sender loop is part of the session model)
 -/
 import SmppVerif.Lemmas.Limiter
+import SmppVerif.Lemmas.Gate
 
 namespace SmppVerif.Props.C18
 open SmppVerif SmppVerif.Policy SmppVerif.Lemmas.Limiter
@@ -60,6 +61,73 @@ theorem allowed_after_reset (t : Throttle) (now now' : Rat) (hs : 0 < t.sampleSi
     (h : now - t.updatedAt > t.samplingPeriod) : ((t.allow now).1.allow now').2 = true :=
   Lemmas.Limiter.allowed_after_reset t now now' hs hd h
 
+/-! ### the gate in the session: consulted before each PDU, fed by submit responses -/
+
+open SmppVerif.Gate in
+/-- In every event trace the gate monitor accepts (the session harness feeds it what it observes of
+    the real ESME: handler feeds, consultations with their answers, submit_sm writes), a written
+    submit_sm was let through by a consultation of its own, answered True on window counters that
+    did not meet the denial condition, with nothing but response feeds between the two. -/
+theorem gate_write_not_denied (th : Throttle) (hd : 0 ≤ th.denyAt) (m' : Mon) (pre post : List Ev)
+    (h : run ⟨th, false⟩ (pre ++ Ev.write :: post) = some m') :
+    ∃ p1 now p2 mm, pre = p1 ++ Ev.consult now true :: p2 ∧ (∀ e ∈ p2, Lemmas.Gate.IsFeed e) ∧
+      run ⟨th, false⟩ p1 = some mm ∧ ¬ Denied mm.th := by
+  obtain ⟨p1, now, p2, mm, he, hf, hr, hal⟩ := Lemmas.Gate.write_gated ⟨th, false⟩ m' pre post rfl h
+  refine ⟨p1, now, p2, mm, he, hf, hr, ?_⟩
+  have hd' : 0 ≤ mm.th.denyAt := by rw [Lemmas.Gate.denyAt_run _ _ _ hr]; exact hd
+  intro hden
+  have := (Lemmas.Limiter.deny_iff mm.th now hd').mpr hden
+  rw [hal] at this; cases this
+
+open SmppVerif.Gate in
+/-- Every behaviour of the Sender at the gate — any schedule of responses and turns, any clock
+    readings — is accepted by the monitor, and it never writes more PDUs than it had. -/
+theorem sender_accepted (th : Throttle) (n : Nat) (inps : List Inp) :
+    (run ⟨th, false⟩ (sender th n inps)).isSome = true ∧ Lemmas.Gate.writes (sender th n inps) ≤ n :=
+  ⟨Lemmas.Gate.sender_accepted th false n inps, Lemmas.Gate.sender_writes_le th n inps⟩
+
+open SmppVerif.Gate in
+/-- When nothing suspends between consultation and write (no rate-limiter wait, no suspending hook)
+    no PDU is written on denied counters: the consultation is the event right before the write. -/
+theorem sender_never_writes_denied (th : Throttle) (hd : 0 ≤ th.denyAt) (n : Nat) (inps : List Inp)
+    (pre post : List Ev) (h : sender th n inps = pre ++ Ev.write :: post) :
+    ∃ p1 now mm, pre = p1 ++ [Ev.consult now true] ∧ run ⟨th, false⟩ p1 = some mm ∧ ¬ Denied mm.th := by
+  have hacc := Lemmas.Gate.sender_accepted th false n inps
+  rw [h] at hacc
+  obtain ⟨m', hm'⟩ := Option.isSome_iff_exists.mp hacc
+  obtain ⟨p1, now, p2, mm, he, hf, hr, hnd⟩ := gate_write_not_denied th hd m' pre post hm'
+  obtain ⟨q1, now', hq⟩ := Lemmas.Gate.sender_write_immediate th n inps pre post h
+  rcases List.eq_nil_or_concat p2 with rfl | ⟨L, b, rfl⟩
+  · exact ⟨p1, now, mm, he, hr, hnd⟩
+  · exfalso
+    have hb := hf b (by simp)
+    have : pre = (p1 ++ Ev.consult now true :: L) ++ [b] := by simp [he]
+    rw [this] at hq
+    have := List.append_inj_right' hq (by simp)
+    simp only [List.cons.injEq, and_true] at this
+    subst this
+    exact hb
+
+open SmppVerif.Gate in
+/-- Sending is never suspended otherwise: on its turn with a PDU pending and counters that do not
+    meet the denial condition, the Sender writes. -/
+theorem sender_progress (th : Throttle) (hd : 0 ≤ th.denyAt) (n : Nat) (now : Rat) (rest : List Inp)
+    (h : ¬ Denied th) :
+    sender th (n + 1) (Inp.turn now :: rest) =
+      Ev.consult now true :: Ev.write :: sender (th.allow now).1 n rest := by
+  have : (th.allow now).2 = true := by
+    cases hal : (th.allow now).2 with
+    | true => rfl
+    | false => exact absurd ((Lemmas.Limiter.deny_iff th now hd).mp hal) h
+  simp [sender, this]
+
+/-- Non-vacuity: two throttled answers of two (sample 2, deny at 50 %) stop the third segment until the
+    window is over; the monitor rejects a write that no consultation let through. -/
+example : Gate.sender ⟨60, 2, 50, 0, 0, 0⟩ 3 [.turn 1, .resp true, .turn 2, .resp true, .turn 3, .turn 6, .turn 62, .turn 63] =
+    [.consult 1 true, .write, .feed true, .consult 2 true, .write, .feed true, .consult 3 false, .consult 6 false,
+     .consult 62 false, .consult 63 true, .write] := by decide +kernel
+example : Gate.firstReject ⟨⟨60, 2, 50, 0, 0, 0⟩, false⟩ 0 [.consult 1 true, .write, .write] = some 2 := by decide +kernel
+
 /-- Non-vacuity: rate 2/s, six back-to-back attempts then one 1 s later: 2 + 0 … passes. -/
 example : ((Bucket.init 2 0).run [1/4, 1/4, 1/4, 1/4, 5/4]).2 = 3 := by decide +kernel
 example : ((⟨180, 50, 1, 49, 1, 0⟩ : Throttle).allow 10).2 = false := by decide +kernel
@@ -75,3 +143,7 @@ end SmppVerif.Props.C18
 #print axioms SmppVerif.Props.C18.round2_close
 #print axioms SmppVerif.Props.C18.window_reset
 #print axioms SmppVerif.Props.C18.allowed_after_reset
+#print axioms SmppVerif.Props.C18.gate_write_not_denied
+#print axioms SmppVerif.Props.C18.sender_accepted
+#print axioms SmppVerif.Props.C18.sender_never_writes_denied
+#print axioms SmppVerif.Props.C18.sender_progress
